@@ -43,7 +43,7 @@ def budget(tier):
 
 @st.composite
 def _case(draw):
-    return {"prog": draw(co2.programs(profile={"boost": ["startact", "startact", "awaitact", "startflow", "startflow", "awaitflow", "activate", "return", "abort"]}, max_helpers=4, depth=2)), "hist": draw(co2.histories(30)), "choices": draw(st.lists(st.integers(0, 3), max_size=3))}
+    return {"prog": draw(co2.programs(profile={"recursion": True, "boost": ["startact", "startact", "awaitact", "startflow", "startflow", "awaitflow", "activate", "return", "abort"]}, max_helpers=4, depth=2)), "hist": draw(co2.histories(30)), "choices": draw(st.lists(st.integers(0, 3), max_size=3))}
 
 
 def strategy(tier):
